@@ -143,6 +143,14 @@ func VerifC19Update() {
 		m.set(c1, v)
 		m.set(c2, v)
 	case 3:
+		if vsym.Param("self") == 1 {
+			// clear everything, passing the index's own existence bitmap as the found-set
+			b.ClearValues(b.GetExistenceBitmap())
+			for _, q := range append([]bPair(nil), m.ps...) {
+				m.del(q.col)
+			}
+			break
+		}
 		c := vStepCol()
 		fs := roaring.NewBitmap()
 		fs.Add(uint32(c))
